@@ -354,12 +354,23 @@ func CoqCalls(cs []*Call) string {
 }
 
 // SCase renders one sequential scenario as a term of type scase.
-func SCase(ns, from string, ids []string, calls []*Call, log []Event, res [][]string) string {
+// Params are the stream parameters of the model (stream_params).
+type Params struct {
+	OutNS, InNS string
+	WS          bool
+	Local       string
+}
+
+func (p Params) Coq() string {
+	return "(mkparams " + coqStr(p.OutNS) + " " + coqStr(p.InNS) + " " + hx.CoqBool(p.WS) + " " + coqStr(p.Local) + ")"
+}
+
+func SCase(pr Params, ids []string, calls []*Call, log []Event, res [][]string) string {
 	var idt []string
 	for _, i := range ids {
 		idt = append(idt, coqStr(i))
 	}
-	return fmt.Sprintf("mksc %s %s %s %s %s %s", coqStr(ns), coqStr(from), CoqList(idt), CoqCalls(calls), CoqEvents(log), CoqResults(res))
+	return fmt.Sprintf("mksc %s %s %s %s %s", pr.Coq(), CoqList(idt), CoqCalls(calls), CoqEvents(log), CoqResults(res))
 }
 
 // CanMid reports whether the call can pause in the middle of its element (see
